@@ -429,6 +429,12 @@ func (n *not) Execute(searcher index.GetSearcher, seriesID common.SeriesID, tr *
 	return all, allTS, err
 }
 
+// ShouldSkip never skips: the block-level tag filters only answer "may contain", which says nothing about
+// the absence of a value, so a negated condition cannot rule a block out.
+func (n *not) ShouldSkip(_ index.FilterOp) (bool, error) {
+	return false, nil
+}
+
 func (n *not) MarshalJSON() ([]byte, error) {
 	data := make(map[string]interface{}, 1)
 	data["not"] = n.Inner
